@@ -73,6 +73,13 @@ static std::string exec_case(const Args &a) {
     const std::string &op = a.op;
     if (op == "hexenc") return do_enc(false, parse_bytes(a.get("in")));
     if (op == "b64enc") return do_enc(true, parse_bytes(a.get("in")));
+    if (op == "hexencN" || op == "b64encN") {   // null data pointer: empty for size 0, std::invalid_argument otherwise (documented)
+        size_t n = (size_t)a.num("size");
+        return guarded([&]() -> std::string {
+            ST::string r = op == "b64encN" ? ST::base64_encode(nullptr, n) : ST::hex_encode(nullptr, n);
+            return "ok " + hex_bytes(str_bytes(r));
+        });
+    }
     if (op == "hexdec" || op == "b64dec") {
         long cap = a.get("cap") == "null" ? -1 : (long)a.num("cap");
         return do_dec_into(op == "b64dec", parse_bytes(a.get("in")), cap);
@@ -146,6 +153,8 @@ static void gen(Emitter &em, const Options &opt) {
             em.emit(std::string("blk.enc codec=") + codec + " kind=g2 lo=" + std::to_string(lo) + " n=4096");
         if (in_slice(blk++)) em.emit(std::string("blk.enc codec=") + codec + " kind=g1 lo=0 n=256");
     }
+    // ---- the encoders' null data pointer (size 0: empty text; otherwise the documented std::invalid_argument)
+    for (const char *op : {"hexencN", "b64encN"}) for (int n : {0, 1, 2, 3, 4, 17}) if (in_slice(blk++)) em.emit(std::string(op) + " size=" + std::to_string(n));
     // ---- C14: every length 0..70 with random content, individually (result crosses the SSO limit)
     int reps = thorough ? 40 : 6;
     for (int rep = 0; rep < reps; ++rep)
